@@ -84,25 +84,28 @@ Definition cert_w2 (e : Z) (w : D) (cells : list (D * D * D * D)) : bool :=
 (* generalised-inverse form of the covariance identity (also valid for rank-deficient normal matrices, e.g. double-ended
    systems with splices):  (n-p) * N * Cov * N = SSR * N, entry-wise to 2^e relative to the absolute sums, plus the
    round-off floor 2^efloor * Y2 * |N_jk| *)
+Definition dNvec (rows : list drow) (cols : list param) (a : param) : list D := map (fun l => dN rows a l) cols.
+Definition dCcol (cols : list param) (cov : param -> param -> D) (m : param) : list D := map (fun l => cov l m) cols.
+Definition ddotl (u v : list D) : D := dsum (map (fun xy => dmul (fst xy) (snd xy)) (combine u v)).
+Definition dNCvec (cols : list param) (cov : param -> param -> D) (na : list D) : list D := map (fun m => ddotl na (dCcol cols cov m)) cols.
+Definition dnmax (rows : list drow) (cols : list param) : D := fold_right dmax dzero (map dabs (concat (map (dNvec rows cols) cols))).
 Definition cov_ok_g (e efloor : Z) (rows : list drow) (p : param -> D) (cols : list param) (cov : param -> param -> D) : bool :=
   let dof := (Z.of_nat (length rows) - Z.of_nat (length cols), 0) : D in
   let ssr := dSSR rows p in
   let y2 := dY2 rows p in
-  let Nm := map (fun a => map (fun b => dN rows a b) cols) cols in
-  let Cm := map (fun a => map (fun b => cov a b) cols) cols in
-  let mulm := fun (A B : list (list D)) (ab : D -> D) =>
-     map (fun ra => map (fun j => dsum (map (fun ab' => ab (dmul (fst ab') (nth j (snd ab') dzero))) (combine ra B))) (seq 0 (length cols))) A in
-  let NC := mulm Nm Cm (fun v => v) in
-  let NCN := mulm NC Nm (fun v => v) in
-  let aNC := mulm (map (map dabs) Nm) (map (map dabs) Cm) (fun v => v) in
-  let aNCN := mulm aNC (map (map dabs) Nm) (fun v => v) in
-  let nmax := fold_right dmax dzero (map dabs (concat Nm)) in
+  let Nt := map (fun a => (a, dNvec rows cols a)) cols in
+  let acov := fun a b => dabs (cov a b) in
+  let nmax := dnmax rows cols in
   (0 <? fst dof) &&
-  forallb (fun rr =>
-    forallb (fun vv =>
-      let '(v, (m, n)) := vv in
+  forallb (fun an =>
+    let nc := dNCvec cols cov (snd an) in                 (* row a of N*C *)
+    let anc := dNCvec cols acov (map dabs (snd an)) in     (* row a of |N|*|C| *)
+    forallb (fun bn =>
+      let v := ddotl nc (snd bn) in                        (* (N C N)_ab, using N_mb = N_bm *)
+      let m := ddotl anc (map dabs (snd bn)) in
+      let n := dN rows (fst an) (fst bn) in
       dle (dabs (dsub (dmul dof v) (dmul ssr n)))
           (dadd (dadd (dmul (dpow2 e) (dadd (dmul dof m) (dmul ssr (dabs n)))) (dmul (dpow2 efloor) (dmul y2 (dabs n))))
-                (dmul (dpow2 (-40)) (dmul ssr nmax))))   (* absolute floor at the scale of the identity, for entries with N_jk = 0 exactly *)
-      (combine (fst rr) (combine (fst (snd rr)) (snd (snd rr)))))
-    (combine NCN (combine aNCN Nm)).
+                (dmul (dpow2 (-40)) (dmul ssr nmax))))   (* absolute floor at the scale of the identity, for entries with N_ab = 0 exactly *)
+      Nt)
+    Nt.
